@@ -412,6 +412,15 @@ def variant_graph_cases():
                             t(">")], "wrapper": "plain", "junk": ""},
         }
         out.append((lib, [["C", "ta", []]]))
+        if via not in ("growing-arg", "bounded"):
+            # the same cycle entered twice (three times) per body: harmless
+            # while the loop is detected at its first repetition, 2**depth
+            # (3**depth) expansions when only the depth limit stops it
+            for times in (2, 3):
+                lib2 = dict(lib)
+                lib2["ta"] = dict(lib["ta"], body=[x for _ in range(times)
+                                                   for x in body])
+                out.append((lib2, [["C", "ta", []]]))
     # literal nesting to depth 100 and 150 of one acyclic template
     for d in (10, 50, 99, 120, 150):
         page = [t("core")]
@@ -579,7 +588,7 @@ def shard_graph(idx, nshards, seed, n_random, known, quick):
     fixed = small_graph_cases() + variant_graph_cases()
     if quick:
         # every 7th small graph + all variants in quick
-        fixed = [c for i, c in enumerate(fixed) if i % 7 == 0 or i >= len(fixed) - 13]
+        fixed = [c for i, c in enumerate(fixed) if i % 7 == 0 or i >= len(fixed) - 25]
     for i, (lib, page) in enumerate(fixed):
         if i % nshards == idx:
             one(lib, page, "enumerated")
